@@ -338,12 +338,17 @@ pub fn gen_wide_stage(rng: &mut StdRng) -> Prog {
     Prog { ops }
 }
 
-fn wide_stage_of(rng: &mut StdRng, n: usize) -> Prog {
+/// `shaped`: a very short first member among average ones, the last member owns a resource (a short late-comer
+/// that conflicts with the LAST group must not end up in the first one)
+fn wide_stage_of(rng: &mut StdRng, n: usize, shaped: bool) -> Prog {
     let mut ops = Vec::new();
     for i in 0..n {
-        let own = rng.gen_bool(0.6);
-        let t = *[1u8, 3, 3, 3, 5].choose(rng).unwrap();
+        let own = if shaped { i == n - 1 || (i > 0 && rng.gen_bool(0.3)) } else { rng.gen_bool(0.6) };
+        let t = if shaped { if i == 0 { 1 } else { 3 } } else { *[1u8, 3, 3, 3, 5].choose(rng).unwrap() };
         ops.push(Op::Add { r: vec![], w: if own { vec![301 + i as Res] } else { vec![] }, deps: vec![], t, name: format!("w{}", i) });
+    }
+    if shaped {
+        ops.push(Op::Add { r: vec![], w: vec![301 + (n - 1) as Res], deps: vec![], t: 1, name: "late-short".into() });
     }
     // late-comers conflict with exactly one owner each (the stage keeps exactly n groups)
     let owners: Vec<usize> = ops.iter().enumerate().filter(|(_, o)| matches!(o, Op::Add { w, .. } if !w.is_empty())).map(|(i, _)| i).collect();
@@ -364,10 +369,10 @@ fn wide_stage_of(rng: &mut StdRng, n: usize) -> Prog {
 pub fn gen_boundary(i: usize, rng: &mut StdRng) -> Option<Prog> {
     let plain = |name: String, deps: Vec<String>| Op::Add { r: vec![], w: vec![], deps, t: 3, name };
     Some(match i {
-        0 => wide_stage_of(rng, 64),
-        1 => wide_stage_of(rng, 65),
-        2 => wide_stage_of(rng, 256),
-        3 => wide_stage_of(rng, 257),
+        0 => wide_stage_of(rng, 64, false),
+        1 => wide_stage_of(rng, 65, true),
+        2 => wide_stage_of(rng, 256, false),
+        3 => wide_stage_of(rng, 257, true),
         4 => {
             // 65 .. 66 distinct resources, conflicts on the last ones
             let mut ops = vec![Op::Add { r: (401..=464).collect(), w: vec![], deps: vec![], t: 3, name: "all".into() }];
@@ -409,6 +414,8 @@ pub fn gen_boundary(i: usize, rng: &mut StdRng) -> Option<Prog> {
             }
             Prog { ops }
         }
+        9 => wide_stage_of(rng, 257, false),
+        10 => wide_stage_of(rng, 256, true),
         _ => return None,
     })
 }
